@@ -75,6 +75,14 @@ def revHalves (x : Bytes) : Bytes := (x.take 8).reverse ++ ((x.drop 8).take 8).r
 def liteProtectKeyCmd (idm pw : Bytes) : Py Bytes :=
   liteKey pw >>= fun key => writeCmd idm [0x87] (revHalves key)
 
+/-- `_protect(password, ...)` on a tag whose system blocks are writable: `password is None` (Lean
+`none`) leaves the card key alone, every other password - the EMPTY one included, which selects the
+factory key of 16 zero octets - writes the key block -/
+def liteProtectKeyWrite (idm : Bytes) (pw : Option Bytes) : Py (Option Bytes) :=
+  match pw with
+  | none => .ok none
+  | some pw => liteProtectKeyCmd idm pw >>= fun c => .ok (some c)
+
 /-- first command of `_authenticate`: the challenge written to the RC block -/
 def liteChallengeCmd (idm rc : Bytes) : Py Bytes := writeCmd idm [0x80] (revHalves rc)
 
